@@ -118,13 +118,13 @@ func (p *Proc) roundtrip(script string) (string, error) {
 // Session is the solver-side mirror of one path: definitions and assertions
 // are sent lazily, only when a query is needed.
 type Session struct {
-	P        *Proc
-	Ctx      *Ctx
-	emitted  []bool // by term ID
-	declared map[string]bool
-	log      bytes.Buffer // everything sent at base level (for fallback solvers)
-	pending  []*Term      // assertions not yet sent
-	started  bool
+	P          *Proc
+	Ctx        *Ctx
+	emitted    []bool // by term ID
+	declared   map[string]bool
+	log        bytes.Buffer // everything sent at base level (for fallback solvers)
+	pending    []*Term      // assertions not yet sent
+	started    bool
 	NoFallback bool
 }
 
@@ -499,7 +499,7 @@ func parseOneShot(out string, names []string) (Result, map[string]uint64) {
 		case "unsat":
 			rest := strings.Join(lines[i+1:], "\n")
 			// the only tolerated error after unsat is the refused get-value
-			for _, e := range strings.Split(rest, "(error") [1:] {
+			for _, e := range strings.Split(rest, "(error")[1:] {
 				if !(strings.Contains(e, "Cannot get value") || strings.Contains(e, "model is not available")) {
 					return Unknown, nil
 				}
